@@ -336,6 +336,11 @@ def run(chk):
 
     chk.validate("MulticastTrace", "MulticastTrace.cfg", traces, key_of=key_of, batch=800)
 
+    # beyond the property: the whole chain on a simulated machine (probe -> place and route -> load), the installed
+    # routers executed by TLC
+    from . import deploy
+    deploy.run_beyond(chk)
+
 
 def selftest(chk):
     from rig.routing_table import RoutingTableEntry as RTE
